@@ -28,10 +28,12 @@ class DummyQueue:
     dead: list[Message] = field(default_factory=list)
     processing: set[Message] = field(default_factory=set)
     taken_from: dict[str, TakenFromT] = field(default_factory=dict)
+    taken_by: dict[str, object] = field(default_factory=dict)  # which consumer holds a message
 
     def put_back(self, msg: Message) -> None:
         """Returns a message, which is no longer processed, to the place it was taken from."""
         origin = self.taken_from.pop(msg.key.id_, None)
+        self.taken_by.pop(msg.key.id_, None)
         if origin is None:
             self.simple.put_nowait(msg)
         elif origin == "dead":
